@@ -107,6 +107,14 @@ func verifyFunction(w *World, specs *Specs, tt *TypeTable, fn *ssa.Function, c *
 		st.assume = append(st.assume, not(eq(st.vals[fn.Params[0]].T, "0")))
 	}
 	vc.curState = st
+	for _, gl := range vc.effective.GhostLocals {
+		ge := &Env{vc: vc, pkg: gl.Pkg, vars: map[string]TV{}, heap: st.heap, old: st.heap}
+		gt := ge.resolveType(gl.Type)
+		if st.glocals == nil {
+			st.glocals = map[string]TV{}
+		}
+		st.glocals[gl.Name] = TV{T: vc.zeroSpec(gt.Sort), S: gt}
+	}
 	// global invariant of the engine-maintained thread counters
 	st.assume = append(st.assume, app("<=", vc.hget(st.heap, "GV_Joined", "Int"), vc.hget(st.heap, "GV_Forks", "Int")))
 	if vc.effective.Thread {
